@@ -695,7 +695,7 @@ Proof.
     - exact Logic.I.
     - destruct IH as [H|H]; [left; now right|now right].
     - destruct IH as [n H]. exists n. now right. }
-  destruct ops as [|op ops]; [exact Logic.I|]. cbn [exec].
+  destruct ops as [|op ops]; [cbn [exec fst]; destruct ev; try exact Logic.I; eexists; now left|]. cbn [exec].
   destruct ev as [|n|e|n].
   - apply Hrec.
   - cbn [fst]. exists n. now left.
